@@ -12,6 +12,10 @@
 //	setcfg <j>      the rules configuration is replaced by configuration j (config swap of a reload)
 //	clear           SamplerFactory.ClearDynsamplers (first half of InMemCollector.reloadConfigs)
 //	wreload <w>     worker w processes its reload signal: clears its sampler cache
+//	cget <env> <k>  k fresh workers (empty caches) released by a barrier ask the real factory for the
+//	                sampler of key env at the same moment; obs r=<slot ids>/<slot ids>/… one list per worker.
+//	                While they run, Metrics.Register() yields and sleeps briefly (the creation path registers
+//	                metrics while it builds a dynsampler) so that the goroutines really overlap.
 //
 // Observation of every op:  [s=<ids> k=<keys>] p=<peerCount> c=<id/cfg,…> g=<id:goal,…>
 // s: per sampler slot the identity of the dynsampler instance behind the worker's sampler (small
@@ -23,9 +27,12 @@ package main
 import (
 	"errors"
 	"fmt"
+	"runtime"
 	"sort"
 	"strconv"
 	"strings"
+	"sync"
+	"sync/atomic"
 	"time"
 
 	"github.com/honeycombio/refinery/config"
@@ -332,8 +339,7 @@ func randDef(r *kit.Rng) def {
 
 // variant changes exactly one parameter of d.  what: 0 tuning, 1 useClusterSize, 2 rate, 3 kind,
 // 4 extra field, 5 field order only (same configuration as far as sampling goes),
-// 6 two fields joined with a space (collides).  Empty field names are not generated: they make
-// config.GetKeyFields panic at sampler creation.
+// 6 two fields joined with a space (collides).
 func variant(r *kit.Rng, d def, what int) def {
 	v := d
 	v.fields = append([]string{}, d.fields...)
@@ -406,6 +412,13 @@ func (comp) Gen(r *kit.Rng, maxLen int, tier string) kit.Case {
 				e := b
 				e.fields = []string{b.fields[0], "z"}
 				pool = append(pool, e, variant(r, e, 6))
+				if r.Chance(40) {
+					// FieldList [""] and an empty FieldList both print as "[]"
+					e0, e1 := b, b
+					e0.fields = nil
+					e1.fields = []string{""}
+					pool = append(pool, e0, e1)
+				}
 			}
 		}
 	}
@@ -515,7 +528,32 @@ func (comp) Gen(r *kit.Rng, maxLen int, tier string) kit.Case {
 	get := func() string {
 		return fmt.Sprintf("get %d %s", r.Intn(workers), kit.Enc(opEnvs[r.Intn(len(opEnvs))]))
 	}
+	// concurrent lazy creation: k fresh workers at once, on a registry that has just been emptied
+	// (start of the case, or after a reload).  Not in cases with cross-type key collisions, where the
+	// outcome legitimately depends on the order of creation.
+	cget := func() string {
+		return fmt.Sprintf("cget %s %d", kit.Enc(opEnvs[r.Intn(len(opEnvs))]), 2+r.Intn(7))
+	}
+	if !kindColl && r.Chance(60) {
+		ops = append(ops, cget())
+	}
 	for len(ops) < n {
+		if !kindColl && r.Chance(7) {
+			if r.Chance(80) {
+				if r.Chance(50) {
+					ops = append(ops, fmt.Sprintf("setcfg %d", r.Intn(len(cfgs))))
+				}
+				ops = append(ops, "clear")
+				for w := 0; w < workers; w++ {
+					ops = append(ops, fmt.Sprintf("wreload %d", w))
+				}
+			}
+			ops = append(ops, cget())
+			if r.Chance(50) {
+				ops = append(ops, get())
+			}
+			continue
+		}
 		switch r.Pick(58, 15, 3, 10, 4, 3, 3, 4) {
 		case 0:
 			ops = append(ops, get())
@@ -600,7 +638,22 @@ func (p *fakePeers) fire() {
 	}
 }
 
+// slowMetrics is NullMetrics whose Register() yields and pauses while `slow` is set: scheduling
+// noise of the environment, placed where the real creation path calls out while building a dynsampler.
+type slowMetrics struct {
+	metrics.NullMetrics
+	slow atomic.Bool
+}
+
+func (m *slowMetrics) Register(md metrics.Metadata) {
+	if m.slow.Load() {
+		runtime.Gosched()
+		time.Sleep(200 * time.Microsecond)
+	}
+}
+
 type runner struct {
+	met     *slowMetrics
 	cfgs    []cfgT
 	mock    *config.MockConfig
 	f       *sample.SamplerFactory
@@ -610,11 +663,12 @@ type runner struct {
 	seen    []any
 }
 
-func newFactory(samplers map[string]*config.V2SamplerChoice, p *fakePeers) (*sample.SamplerFactory, *config.MockConfig) {
+func newFactory(samplers map[string]*config.V2SamplerChoice, p *fakePeers) (*sample.SamplerFactory, *config.MockConfig, *slowMetrics) {
 	mock := &config.MockConfig{Samplers: samplers}
-	f := &sample.SamplerFactory{Config: mock, Logger: &logger.NullLogger{}, Metrics: &metrics.NullMetrics{}, Peers: p}
+	met := &slowMetrics{}
+	f := &sample.SamplerFactory{Config: mock, Logger: &logger.NullLogger{}, Metrics: met, Peers: p}
 	f.Start()
-	return f, mock
+	return f, mock, met
 }
 
 func (comp) NewCase(h []string) kit.Runner {
@@ -628,7 +682,7 @@ func (comp) NewCase(h []string) kit.Runner {
 		r.cfgs = []cfgT{{m: map[string]envCfg{}}}
 	}
 	r.peers = &fakePeers{}
-	r.f, r.mock = newFactory(r.cfgs[0].build(), r.peers)
+	r.f, r.mock, r.met = newFactory(r.cfgs[0].build(), r.peers)
 	for i := 0; i < nw; i++ {
 		r.workers = append(r.workers, map[string]sample.Sampler{})
 	}
@@ -761,6 +815,54 @@ func (r *runner) Do(op []string) (string, bool) {
 			return "nil-sampler", true
 		}
 		return r.tail(sample.VerifSamplerregInstances(s)), true
+	case "cget":
+		env := kit.Dec(op[1])
+		k, _ := strconv.Atoi(op[2])
+		if k < 1 || k > 16 {
+			return "bad-op", true
+		}
+		if c, _ := r.mock.GetSamplerConfigForDestName(env); c == nil {
+			return "exit", true
+		}
+		res := make([]sample.Sampler, k)
+		start := make(chan struct{})
+		var wg sync.WaitGroup
+		r.met.slow.Store(true)
+		for i := 0; i < k; i++ {
+			wg.Add(1)
+			go func(i int) {
+				defer wg.Done()
+				<-start
+				// a worker with an empty cache: makeDecision goes straight to the factory
+				res[i] = r.f.GetSamplerImplementationForKey(env)
+			}(i)
+		}
+		close(start)
+		wg.Wait()
+		r.met.slow.Store(false)
+		var lists []string
+		var first []any
+		for i := 0; i < k; i++ {
+			if res[i] == nil {
+				lists = append(lists, "nil")
+				continue
+			}
+			in := sample.VerifSamplerregInstances(res[i])
+			if i == 0 {
+				first = in
+			}
+			var ids []string
+			for _, x := range in {
+				if x == nil {
+					ids = append(ids, "-")
+				} else {
+					ids = append(ids, strconv.Itoa(r.id(x)))
+				}
+			}
+			lists = append(lists, join(ids))
+		}
+		_ = first
+		return "r=" + strings.Join(lists, "/") + " " + r.tail(nil), true
 	case "peers":
 		n, _ := strconv.Atoi(op[1])
 		r.peers.fail = false
@@ -814,7 +916,7 @@ func facts() map[string]string {
 	p := &fakePeers{n: 1}
 	probe := func(d def, rules bool, env string) (string, any) {
 		ec := envCfg{rules: rules, defs: []def{d}}
-		f, _ := newFactory(map[string]*config.V2SamplerChoice{env: ec.build()}, p)
+		f, _, _ := newFactory(map[string]*config.V2SamplerChoice{env: ec.build()}, p)
 		s := f.GetSamplerImplementationForKey(env)
 		in := sample.VerifSamplerregInstances(s)[0]
 		reg, _, _ := sample.VerifSamplerregRegistry(f)
@@ -869,4 +971,9 @@ func facts() map[string]string {
 	return out
 }
 
-func main() { kit.Main(comp{}, facts) }
+func main() {
+	if runtime.GOMAXPROCS(0) < 8 {
+		runtime.GOMAXPROCS(8)
+	}
+	kit.Main(comp{}, facts)
+}
